@@ -49,3 +49,30 @@ pub fn dispatch(id: &str, opts: &Opts) -> Option<i32> {
         _ => return None,
     })
 }
+
+/// One coverage-guided fuzz iteration of property `id` on the given bytes.
+pub fn fuzz_dispatch(id: &str, known: &[crate::engine::KnownFinding], data: &[u8]) -> Option<crate::engine::FuzzOutcome> {
+    use crate::engine::fuzz_one;
+    Some(match id {
+        "C01" => fuzz_one(&c01::C01, known, data),
+        "C02" => fuzz_one(&c02::C02, known, data),
+        "C03" => fuzz_one(&c03::C03, known, data),
+        "C04" => fuzz_one(&c04::C04, known, data),
+        "C05" => fuzz_one(&c05::C05, known, data),
+        "C06" => fuzz_one(&c06::C06, known, data),
+        "C08" => fuzz_one(&c08::C08, known, data),
+        "C09" => fuzz_one(&c09::C09, known, data),
+        "C10" => fuzz_one(&c10::C10, known, data),
+        "C11" => fuzz_one(&c11::C11, known, data),
+        "C12" => fuzz_one(&c12::C12, known, data),
+        "C13" => fuzz_one(&c13::C13, known, data),
+        "C14" => fuzz_one(&c14::C14, known, data),
+        "C15" => fuzz_one(&c15::C15, known, data),
+        "C16" => fuzz_one(&c16::C16, known, data),
+        "C17" => fuzz_one(&c17::C17, known, data),
+        "C18" => fuzz_one(&c18::C18, known, data),
+        "C19" => fuzz_one(&c19::C19, known, data),
+        "C20" => fuzz_one(&c20::C20, known, data),
+        _ => return None,
+    })
+}
